@@ -211,7 +211,12 @@ def rule_p2(ctx, F):
     fn = ctx.need_fn(F, "ts_lexer__get_lookahead", "P3")
     if fn:
         retry = [pt for pt, n in find(fn, "ts_lexer__get_chunk(self)")]
-        ctx.gate("P3", fn, retry, [("re-fetch only after a decode error", "self->data.lookahead == -1", True), ("…with fewer than 4 bytes left in the chunk", "_ < 4", True)], accept_desc="the chunk re-fetch")
+        ctx.gate("P3", fn, retry, [("re-fetch only for a character that may continue beyond the chunk", [("self->data.lookahead == -1", True), ("ts_lexer__lookahead_is_truncated(self, size)", True)]),
+                                   ("…with fewer than 4 bytes left in the chunk", [("_ < 4", True), ("ts_lexer__lookahead_is_truncated(self, size)", True)])], accept_desc="the chunk re-fetch")
+    h = F.fns.get("ts_lexer__lookahead_is_truncated")
+    if h is not None:
+        yes = [pt for pt, e in h.points() if e.get("k") == "ret" and not (strip(e["e"]).get("k") == "int" and not strip(e["e"]).get("v"))]
+        ctx.gate("P3", h, yes, [("a character counts as cut off only with fewer than 4 bytes left", [("size >= 4", False), ("size < 4", True)])], accept_desc="answering `may continue`")
 
 
 class BufferMonitor(Monitor):
@@ -440,6 +445,81 @@ def rule_p7(ctx, F):
                "the comparison with the old position happens before the position is overwritten")
 
 
+def rule_p8(ctx, F):
+    """P8: every UTF-16 code unit read from the input passes through the byte-order conversion of its decoder.  A
+    surrogate pair is two units; if only the lead unit is converted (le16toh / be16toh) the trail unit is tested in the
+    wrong byte order, the pair is not combined, and the same characters delivered as UTF-16BE parse differently."""
+    for name in ("ts_decode_utf16_le", "ts_decode_utf16_be"):
+        fn = ctx.need_fn(F, name, "P8")
+        if not fn:
+            continue
+        buf = fn.params[0]["id"] if fn.params else None
+        reads = []      # (pt, wrapped-by callee or None)
+        for pt, e in fn.points():
+            wrapped = set()
+            for n in own_walk(e):
+                if n.get("k") == "call":
+                    for a in n.get("a", []):
+                        for x in walk(a):
+                            if x.get("k") == "idx" and any(y.get("k") == "ref" and y.get("id") == buf for y in walk(x["b"])):
+                                wrapped.add(id(x))
+                                reads.append((pt, callee_name(n) or "?"))
+            for n in own_walk(e):
+                if n.get("k") == "idx" and id(n) not in wrapped and any(y.get("k") == "ref" and y.get("id") == buf for y in walk(n["b"])):
+                    reads.append((pt, None))
+        reads = sorted(set(reads), key=lambda r: (r[0], str(r[1])))
+        conv = {c for _, c in reads if c}
+        raw = [pt for pt, c in reads if c is None]
+        key = "%s:every-code-unit-converted" % name
+        if len(reads) < 2:
+            ctx.bad("P8", key, "%s: expected at least two reads of code units (lead and trail), found %d" % (name, len(reads)))
+        elif raw or len(conv) != 1:
+            ctx.bad("P8", key, "%s reads a code unit at %s without the byte-order conversion the other read(s) go through (%s): a trail surrogate is tested in the wrong byte order, "
+                    "so characters outside the BMP are not decoded and the UTF-16 tree differs from the UTF-8 tree" % (name, ", ".join(fn.loc(p) for p in raw) or "?", ", ".join(sorted(conv)) or "none"),
+                    {"site": fn.loc(raw[0]) if raw else None})
+        else:
+            ctx.ok("P8", key, "all %d code-unit reads go through %s" % (len(reads), next(iter(conv))), sample={"function": name})
+
+
+def rule_p9(ctx, F):
+    """P9: a character that straddles the end of a chunk is completed from the chunks that follow.  The read callback
+    is a function of the offset it is asked for: asking again at the *same* offset (the first retry) returns the same
+    piece when the input's pieces have fixed boundaries.  So ts_lexer__get_lookahead must, under its truncation test,
+    read at an offset beyond the current position, decode what it gathered, and afterwards re-establish the chunk for the
+    current position (a callback may reuse its buffer, so the earlier chunk pointer is stale after another read)."""
+    fn = ctx.need_fn(F, "ts_lexer__get_lookahead", "P9")
+    if not fn:
+        return
+    key = "ts_lexer__get_lookahead:split-character-assembled"
+    reads = []
+    for pt, c in fn.calls():
+        fe = strip(c.get("fe") or {})
+        while isinstance(fe, dict) and fe.get("k") in ("un", "cast"):
+            fe = strip(fe.get("e"))
+        if isinstance(fe, dict) and fe.get("k") == "mem" and fe.get("f") == "read" and len(c.get("a", [])) >= 2:
+            off = strip(c["a"][1])
+            beyond = off.get("k") == "bin" and off.get("op") == "+" and "current_position.bytes" in show(off)
+            reads.append((pt, beyond))
+    ahead = [pt for pt, b in reads if b]
+    if not ahead:
+        ctx.bad("P9", key, "ts_lexer__get_lookahead retries a character cut off by the end of a chunk only by asking for the same offset again; with an input whose pieces have fixed "
+                "boundaries the same short piece comes back and the character is lexed as invalid — the tree depends on the chunking (`ab 😀 cd` read in pieces of 1..6 bytes gives "
+                "(ERROR (UNEXPECTED INVALID)) where the whole text gives (smile))")
+        return
+    ctx.gate("P9", fn, ahead, [("bytes beyond the chunk are requested only for a character that may continue there",
+                               [("ts_lexer__lookahead_is_truncated(self, size)", True), ("self->data.lookahead == TS_DECODE_ERROR", True), ("self->data.lookahead == -1", True)])],
+             accept_desc="reading ahead of the current position")
+    dec = [pt for pt, c in fn.calls() if callee_name(c) == "decode" or "decode" in show(c.get("fe") or {})]
+    rest = [pt for pt, c in fn.calls() if callee_name(c) == "ts_lexer__get_chunk"]
+    from flow import reachable_blocks
+    later = reachable_blocks(fn, ahead[0][0])
+    if any(pt[0] in later and pt != ahead[0] for pt in dec):
+        ctx.ok("P9", key + ":decoded", "a decode call follows the read-ahead (what was gathered is decoded)")
+    else:
+        ctx.bad("P9", key + ":decoded", "nothing is decoded after ts_lexer__get_lookahead read ahead of the current position")
+    ctx.after("P9", key + ":chunk-restored", fn, ahead, rest, "the chunk for the current position is re-established after reading elsewhere")
+
+
 def rule_p5(ctx, F):
     """P5: chunking and encoding.  A chunk is always requested for the lexer's current position; the
     decoder is the one of the declared encoding; the ASCII short-cut applies to UTF-8 only; the chunk is
@@ -493,6 +573,8 @@ def run(ctx):
         rule_p5(ctx, F)
         rule_p6(ctx, F)
         rule_p7(ctx, F)
+        rule_p8(ctx, F)
+        rule_p9(ctx, F)
     return ctx.finish(
         "Field-coverage and ordering rules over parser.c/lexer.c: each of TSParser's fields is classified and every RESET field is re-initialised on all paths "
         "of ts_parser_reset; completion and language change pass ts_parser_reset; a resumed parse stores to no parser state before the loop; a new input discards "
